@@ -186,3 +186,76 @@ func VfC04_TypeAlias() {
 		}
 	}
 }
+
+// VfC04_Unnamed: unnamed functions and globals (whose names are all empty)
+// must not be confused with each other: two unnamed functions with the same
+// block labels and local names, blockaddress constants into both (also as the
+// value of a use-list order directive), unnamed globals referring to each
+// other.
+//
+//vf:unwind 400
+func VfC04_Unnamed() {
+	l := hLetterIn("l", 'p', 's')
+	x := hLetterIn("x", 'u', 'z')
+	body := func(k string) string {
+		return "(i32 %" + x + ") {\nentry:\n\tbr label %" + l + "\n" + l + ":\n\t%res = add i32 %" + x + ", " + k + "\n\tret i32 %res\n}\n"
+	}
+	src := "@0 = global i8* blockaddress(@2, %" + l + ")\n" +
+		"@1 = global i8* blockaddress(@3, %" + l + ")\n" +
+		"define i32 @2" + body("1") +
+		"define i32 @3" + body("2") +
+		"@4 = global i8** @0\n"
+	m, err := ParseString("t.ll", src)
+	vfReach("C04.unnamed")
+	vfObserveStr("src", src)
+	vfAssert("C04.unnamed.accepted", err == nil)
+	if err != nil {
+		return
+	}
+	vfAssert("C04.unnamed.counts", vfAnd(len(m.Globals) == 3, len(m.Funcs) == 2))
+	if len(m.Globals) != 3 || len(m.Funcs) != 2 {
+		return
+	}
+	f0, f1 := m.Funcs[0], m.Funcs[1]
+	ba0 := m.Globals[0].Init.(*constant.BlockAddress)
+	ba1 := m.Globals[1].Init.(*constant.BlockAddress)
+	vfAssert("C04.unnamed.blockaddress-func", vfAnd(ba0.Func == constant.Constant(f0), ba1.Func == constant.Constant(f1)))
+	vfAssert("C04.unnamed.blockaddress-block", vfAnd(ba0.Block == value.Named(f0.Blocks[1]), ba1.Block == value.Named(f1.Blocks[1])))
+	vfAssert("C04.unnamed.block-parent", vfAnd(ba0.Block.(*ir.Block).Parent == f0, ba1.Block.(*ir.Block).Parent == f1))
+	a0 := f0.Blocks[1].Insts[0].(*ir.InstAdd)
+	a1 := f1.Blocks[1].Insts[0].(*ir.InstAdd)
+	vfAssert("C04.unnamed.locals-scoped", vfAnd(a0.X == value.Value(f0.Params[0]), a1.X == value.Value(f1.Params[0])))
+	vfAssert("C04.unnamed.global-ref", m.Globals[2].Init == constant.Constant(m.Globals[0]))
+}
+
+// VfC04_UseListOrder: the value of a module-level use-list order directive,
+// including a blockaddress constant, is the defining object.
+//
+//vf:unwind 400
+func VfC04_UseListOrder() {
+	l := hLetterIn("l", 'p', 's')
+	src := "@g = global i32 0\n@a = global i32* @g\n@b = global i32* @g\n" +
+		"define void @f() {\nentry:\n\tbr label %" + l + "\n" + l + ":\n\tret void\n}\n" +
+		"@p = global i8* blockaddress(@f, %" + l + ")\n@q = global i8* blockaddress(@f, %" + l + ")\n" +
+		"uselistorder i32* @g, { 1, 0 }\n" +
+		"uselistorder i8* blockaddress(@f, %" + l + "), { 1, 0 }\n"
+	m, err := ParseString("t.ll", src)
+	vfReach("C04.uselistorder")
+	vfObserveStr("src", src)
+	vfAssert("C04.uselistorder.accepted", err == nil)
+	if err != nil {
+		return
+	}
+	vfAssert("C04.uselistorder.count", len(m.UseListOrders) == 2)
+	if len(m.UseListOrders) != 2 {
+		return
+	}
+	vfAssert("C04.uselistorder.global-is-def", m.UseListOrders[0].Value == value.Value(m.Globals[0]))
+	ba, ok := m.UseListOrders[1].Value.(*constant.BlockAddress)
+	vfAssert("C04.uselistorder.blockaddress", ok)
+	if ok {
+		blk := m.Funcs[0].Blocks[1]
+		vfAssert("C04.uselistorder.blockaddress-block-is-def", vfAnd(ba.Block == value.Named(blk), ba.Func == constant.Constant(m.Funcs[0])))
+		vfAssert("C04.uselistorder.no-placeholder", ba.Block.(*ir.Block).Parent == m.Funcs[0])
+	}
+}
